@@ -324,7 +324,16 @@ def _compare_values(prog, text, sql_text, schema, db, pre, ref, sq, r, sem, dial
     if compare_names:
         bad = [(i, c.name, s.name) for i, (c, s) in enumerate(zip(ref.cols, sq.cols)) if c.name and c.name != s.name]
         if bad:
-            return structural(prog, text, sql_text, schema, f"names: {bad}", expect_cols=[c.name for c in ref.cols])
+            names_out = structural(prog, text, sql_text, schema, f"names: {bad}", expect_cols=[c.name for c in ref.cols])
+            # a column that merely got a generated name (duplicate names at a split) does not make the program blind to wrong
+            # values: compare them too. (When columns are permuted, a positional value comparison says nothing new.)
+            if not all(sn and HELPER_COL.match(sn) for _, _, sn in bad):
+                return names_out
+            o = _compare_values(prog, text, sql_text, schema, db, pre, ref, sq, r, sem, dialect, target, executable, timeout_ms, False, extra_pre, drop)
+            if o.status == "violation" and getattr(o, "kind", "") == "result" and names_out.status == "violation":
+                o.detail = f"(besides {names_out.detail[:100]}) " + o.detail
+                return o
+            return names_out
     ordered = ref.order is not None
     note = None
     if ordered and sq.order is None:
